@@ -9,6 +9,7 @@ import z3
 from .symexec import Env, RaiseSig, exc_class
 from .values import (
     IntSeqSort,
+    SAbsIter,
     SBool,
     SClosure,
     SDec,
@@ -268,6 +269,9 @@ class BuiltinsMixin:
         return True
 
     def bi_enumerate(self, items, start=0):
+        items = self.resolve(items)
+        if isinstance(items, SAbsIter):
+            return SAbsIter(items.n, lambda i, _g=items.get, _s=start: (self.binop("Add", i, _s), _g(i)), f"enumerate({items.name})")
         return SList([(k + start, x) for k, x in enumerate(self.static_items_req(items))])
 
     def bi_zip(self, *its):
@@ -852,6 +856,30 @@ class BuiltinsMixin:
         return self.lift_const(r) if isinstance(r, (list, dict)) else r
 
     # text (str / bytes / SStr)
+    def _strip_model(self, s, which, chars):
+        """weak, sound model of strip/lstrip/rstrip on a symbolic string: a function of (s, chars) whose result is a
+        suffix / prefix / substring of s (which characters go is not modelled)"""
+        if isinstance(s, (str, bytes)) and all(isinstance(c, (str, bytes)) or c is None for c in chars):
+            return getattr(s, which)(*[c for c in chars if c is not None])
+        if any(isinstance(self.resolve(c), SStr) for c in chars):
+            raise Unsupported(f"{which} with symbolic argument")
+        tag = repr(chars[0]) if chars and chars[0] is not None else "ws"
+        f = z3.Function(f"{self.kind_of(s)}.{which}[{tag}]", z3.StringSort(), z3.StringSort())
+        e = self.to_z3(s)
+        r = f(e)
+        rel = {"lstrip": z3.SuffixOf(r, e), "rstrip": z3.PrefixOf(r, e), "strip": z3.Contains(e, r)}[which]
+        self.run.assume(z3.And(rel, z3.Length(r) <= z3.Length(e)))
+        return SStr(r, self.kind_of(s))
+
+    def m_text_lstrip(self, s, *chars):
+        return self._strip_model(s, "lstrip", chars)
+
+    def m_text_rstrip(self, s, *chars):
+        return self._strip_model(s, "rstrip", chars)
+
+    def m_text_strip(self, s, *chars):
+        return self._strip_model(s, "strip", chars)
+
     def m_text_startswith(self, s, prefix, *rest):
         if rest:
             raise Unsupported("startswith with offsets")
